@@ -376,9 +376,40 @@ impl vstd::std_specs::convert::FromSpecImpl<Choice> for bool {
     open spec fn from_spec(c: Choice) -> bool { c.b }
 }
 impl core::convert::From<Choice> for bool { fn from(c: Choice) -> (r: bool) { c.b } }
-pub trait ConstantTimeEq: Sized {
+pub trait ConstantTimeEq {
     /// constant-time-ness is not modelled: ct_eq is equality
-    fn ct_eq(&self, other: &Self) -> (r: Choice) ensures r.b == (*self == *other);
+    spec fn ct_eq_spec(&self, other: &Self) -> bool;
+    fn ct_eq(&self, other: &Self) -> (r: Choice) ensures r.b == self.ct_eq_spec(other);
+}
+impl<L: ArrayLength<u8>> ConstantTimeEq for GenericArray<u8, L> {
+    open spec fn ct_eq_spec(&self, other: &Self) -> bool { self@ == other@ }
+    #[verifier::external_body]
+    fn ct_eq(&self, other: &Self) -> (r: Choice) { unimplemented!() }
+}
+impl ConstantTimeEq for [u8] {
+    open spec fn ct_eq_spec(&self, other: &Self) -> bool { self@ == other@ }
+    #[verifier::external_body]
+    fn ct_eq(&self, other: &Self) -> (r: Choice) { unimplemented!() }
+}
+impl ConstantTimeEq for u8 {
+    open spec fn ct_eq_spec(&self, other: &Self) -> bool { *self == *other }
+    #[verifier::external_body]
+    fn ct_eq(&self, other: &Self) -> (r: Choice) { unimplemented!() }
+}
+impl core::ops::BitOr for Choice {
+    type Output = Choice;
+    #[verifier::external_body]
+    fn bitor(self, rhs: Choice) -> (r: Choice) ensures r.b == (self.b || rhs.b) { Choice { b: self.b || rhs.b } }
+}
+impl core::ops::BitAnd for Choice {
+    type Output = Choice;
+    #[verifier::external_body]
+    fn bitand(self, rhs: Choice) -> (r: Choice) ensures r.b == (self.b && rhs.b) { Choice { b: self.b && rhs.b } }
+}
+impl core::ops::Not for Choice {
+    type Output = Choice;
+    #[verifier::external_body]
+    fn not(self) -> (r: Choice) ensures r.b == !self.b { Choice { b: !self.b } }
 }
 
 // ---------------------------------------------------------------------------------- voprf 0.5 (mode OPRF)
@@ -416,6 +447,8 @@ pub mod voprf {
     }
     pub trait Group: Sized {
         type Elem: ConstantTimeEq + Copy;
+        /// ct_eq on group elements is equality of the elements
+        proof fn lemma_elem_ct_eq(a: Self::Elem, b: Self::Elem) ensures a.ct_eq_spec(&b) == (a == b);
         type ElemLen: ArrayLength<u8>;
         type Scalar: Copy;
         type ScalarLen: ArrayLength<u8>;
